@@ -188,6 +188,30 @@ def check(ctx, report):
     fields = [f.name for f in cls.attrs_fields()]
     if fields != ['version']:
         report.add('C17.R2', cls.construct + '@fields', 'hash covers fields %s, __eq__ compares the version code only' % fields)
+    # subclasses inherit __eq__ / __lt__ (instances of the family compare by code): a subclass that is attrs-decorated itself gets a
+    # generated __hash__ of its own - attrs salts the hash per class - or a generated field-wise __eq__ that is exact about the class,
+    # so a == b with hash(a) != hash(b) (sets and dict keys disagree with lists), or a != b for the same version
+    for k in model.all_subclasses(cls):
+        if k is cls or k.module.external:
+            continue
+        report.count('C17.R2')
+        own = [m for m in ('__eq__', '__ne__', '__hash__') if m in k.methods]
+        if own:
+            report.add('C17.R2', k.construct + '@redefines[%s]' % ','.join(own), 'subclass %s of %s defines %s itself: versions of the two classes no longer '
+                       'compare / hash by the rules decided for %s' % (k.name, cls.name, ', '.join(own), cls.name))
+        if getattr(k, 'attrs_decorated', False):
+            kw2 = getattr(k, 'attrs_kw', None) or {}
+            def flag(name, default):
+                v = kw2.get(name)
+                return v.value if isinstance(v, ast.Constant) else default
+            eq_on = flag('eq', flag('cmp', True))
+            hash_on = flag('hash', flag('unsafe_hash', None))
+            if eq_on or hash_on or flag('order', False):
+                report.add('C17.R2', k.construct + '@decorator[generated]',
+                           'subclass %s of %s is decorated with attr.s(%s): attrs generates %s for it - the hash is salted per class, the equality is exact '
+                           'about the class - so equal versions of the two classes hash differently or compare unequal' % (
+                               k.name, cls.name, ', '.join('%s=%s' % (a, ast.unparse(b)) for a, b in kw2.items()),
+                               ' / '.join(x for x, on in (('__eq__', eq_on), ('__hash__', hash_on), ('ordering', flag('order', False))) if on)))
     seen = {}
     for n in names:
         report.count('C17.R2')
